@@ -53,7 +53,7 @@ def alive_form(prog, c, sink_names=("push", "insert")):
             return c["op"]
     # used as a branch condition: which edge leads to the keeping effect?
     for bb, t in x.terms():
-        if t["t"] == "switch" and F.op_local(t["discr"]) == dl:
+        if t["t"] == "switch" and (dl is not None and x.reads(t["discr"], dl)):
             false_t, true_t = t["targets"][0][1], t["otherwise"]
             keeps_true = _reaches_sink_first(x, true_t, false_t, sink_names)
             keeps_false = _reaches_sink_first(x, false_t, true_t, sink_names)
